@@ -21,6 +21,7 @@ class Clause:
 class LoopSpec:
     n: int
     binder: Optional[str] = None
+    desugar: Optional[str] = None
     clauses: List[Clause] = field(default_factory=list)
     decreases: Optional[str] = None
 
@@ -137,10 +138,13 @@ def parse_file(path: str) -> List[Contract]:
             cur_loop = None
         elif d == 'binder':
             cur_loop.binder = arg.strip()
+        elif d == 'desugar':
+            cur_loop.desugar = arg.strip()
         elif d == 'proof':
             cur_loop = None
             mm = re.match(r'(after|before|replace)\s+/(.*)/\s+(\S+)\s+\[([^\]]*)\]\s*$', arg) or \
-                 re.match(r'(start)()\s+(\S+)\s+\[([^\]]*)\]\s*$', arg)
+                 re.match(r'(start)()\s+(\S+)\s+\[([^\]]*)\]\s*$', arg) or \
+                 re.match(r'(loophead|loopbody)\s+(\d+)\s+(\S+)\s+\[([^\]]*)\]\s*$', arg)
             if not mm:
                 raise ContractError('%s: @proof after|before /re/ <id> [tags]  or  @proof start <id> [tags]' % where)
             cur.proofs.append(ProofSplice(mode=mm.group(1), regex=mm.group(2) or None, text=rest_lines,
